@@ -98,6 +98,9 @@ class PITDilationMasker(nn.Module):
         c_gamma = torch.transpose(c_gamma, 0, 1)
         # everything on the time-axis is flipped with respect to the paper
         # c_gamma = torch.fliplr(c_gamma)
+        # the time axis is dim 0 after the transpose: anchor the dilation pattern at the last
+        # (most recent) time-step, as done for the receptive field mask and the keep-alive
+        c_gamma = torch.flip(c_gamma, (0,))
         return c_gamma
 
     @property
